@@ -1,6 +1,7 @@
 package main
 
 import (
+	"os"
 	"go/ast"
 	"fmt"
 	"go/token"
@@ -508,6 +509,19 @@ func (fr *Frame) localByName(name string, st *State) *Val {
 
 func (fr *Frame) localByNameDom(name string, at *ssa.BasicBlock, st *State) *Val {
 	var best *ssa.DebugRef
+	if os.Getenv("GOVC_DBG_LOCAL") == name {
+		fmt.Fprintf(os.Stderr, "DBG localByNameDom %s at=%v fn=%s\n", name, at, fr.fn)
+		for _, b := range fr.fn.Blocks {
+			for _, in := range b.Instrs {
+				if d, ok := in.(*ssa.DebugRef); ok {
+					if id, ok := d.Expr.(*ast.Ident); ok && id.Name == name {
+						_, has := fr.vals[d.X]
+						fmt.Fprintf(os.Stderr, "   block %d dom=%v X=%s(%T) hasval=%v\n", b.Index, at == nil || b.Dominates(at), d.X.Name(), d.X, has)
+					}
+				}
+			}
+		}
+	}
 	for _, b := range fr.fn.Blocks {
 		if at != nil && !(b.Dominates(at)) {
 			continue
@@ -530,6 +544,36 @@ func (fr *Frame) localByNameDom(name string, at *ssa.BasicBlock, st *State) *Val
 		}
 	}
 	if best == nil {
+		// no declaration-site DebugRef with a value dominates the point (go/ssa binds `x := T{}` to the
+		// zero constant there): if every use of the name in the function refers to one and the same SSA
+		// value, and that value is defined in a block dominating the point, the name denotes it
+		var uniq ssa.Value
+		for _, b := range fr.fn.Blocks {
+			for _, in := range b.Instrs {
+				d, ok := in.(*ssa.DebugRef)
+				if !ok || d.IsAddr {
+					continue
+				}
+				if id, ok := d.Expr.(*ast.Ident); !ok || id.Name != name {
+					continue
+				}
+				if _, isConst := d.X.(*ssa.Const); isConst {
+					continue
+				}
+				if uniq != nil && uniq != d.X {
+					return nil
+				}
+				uniq = d.X
+			}
+		}
+		if uniq == nil {
+			return nil
+		}
+		if def, ok := uniq.(ssa.Instruction); ok && (at == nil || def.Block().Dominates(at)) {
+			if v, ok := fr.vals[uniq]; ok {
+				return v
+			}
+		}
 		return nil
 	}
 	if best.IsAddr {
